@@ -2,7 +2,7 @@
 """E2 driver: run /verif/miri-real (untouched /repo crates, real rayon, real std primitives)
 under Miri's seeded scheduler and fold the outcome into the property's evidence file.
 
-  e2.py run <PROP> <quick|thorough>     PROP in C02, C05, C06 (mode checker), C10 (mode vm) or C20 (mode lock)
+  e2.py run <PROP> <quick|thorough>     PROP in C02, C05, C06 (mode checker), C04 (mode perm), C10 (mode vm) or C20 (mode lock)
   e2.py replay <file>                   re-run one recorded (workload seed, miri seed)
 
 Exit 0 = held on everything explored, 1 = violation (prints VIOLATION line), 2 = harness error.
@@ -17,6 +17,7 @@ FLAGS_RAYON = " -Zmiri-tree-borrows -Zmiri-ignore-leaks"  # crossbeam-epoch need
 PLAN = {
     # prop: (mode, quick (workload seeds, miri seeds per workload), thorough)
     "C02": ("checker", (8, 4), (192, 16)),
+    "C04": ("perm", (8, 4), (96, 16)),
     "C05": ("checker", (8, 4), (96, 16)),
     "C06": ("checker", (8, 4), (96, 16)),
     "C10": ("vm", (24, 8), (480, 16)),
@@ -32,7 +33,7 @@ def n_parallel():
 
 
 def miri(mode, wseed, seed_lo, seed_hi, rate):
-    flags = FLAGS_COMMON.format(rate=rate) + (FLAGS_RAYON if mode in ("checker", "vm") else "")
+    flags = FLAGS_COMMON.format(rate=rate) + (FLAGS_RAYON if mode in ("checker", "vm", "perm") else "")
     env = dict(os.environ)
     env["MIRIFLAGS"] = f"-Zmiri-many-seeds={seed_lo}..{seed_hi} " + flags
     env["CARGO_NET_OFFLINE"] = "true"
@@ -51,7 +52,7 @@ def verif_seed():
 def run(prop, tier):
     mode, quick, thorough = PLAN[prop]
     n_w, n_m = quick if tier != "thorough" else thorough
-    base = verif_seed() * 1000003 + {"C02": 11, "C05": 17, "C06": 19, "C10": 23, "C20": 37}[prop]
+    base = verif_seed() * 1000003 + {"C02": 11, "C04": 13, "C05": 17, "C06": 19, "C10": 23, "C20": 37}[prop]
     t0 = time.time()
     runs = 0
     oks = []
